@@ -1,9 +1,9 @@
 package rules
 
 import (
-	"os"
 	"fmt"
 	"go/token"
+	"os"
 	"sort"
 	"strconv"
 	"strings"
